@@ -19,6 +19,8 @@ X = 'cnfgen/utils/latexoutput.py'
 
 CLASSMODELS = {}      # CNFw: see utils_dimacs.py
 
+# one definition of the row renderer per parameter choice: writer id wid(split_every, compact)
+WID = 'wid(split_every, ite(compact, 1, 0))'
 PB = '(split_every > 0 and i % split_every == 0 and i != 0)'
 FIRST = '({} or i == 0)'.format(PB)
 CI = 'cget(F._clauses, i)'
@@ -37,18 +39,50 @@ CONTRACTS = {
         'requires': ['cmaxabs(F._clauses) <= F._numvar', 'not chaszero(F._clauses)'],
         'raises': {},
         # the events of row i, appended to a trace S_L (definition of this writer's rowapp; writer id 7)
-        'defines': ['forall(lambda S_L, i: rowapp(7, S_L, i) == csnoc(csnoc(csnoc({}, {}), {}), {}), lambda S_L, i: rowapp(7, S_L, i))'.format(BREAK, SEP, PAD, BODY)],
+        'defines': ['forall(lambda S_L, i: rowapp(W, S_L, i) == csnoc(csnoc(csnoc({}, {}), {}), {}), lambda S_L, i: rowapp(W, S_L, i))'.format(BREAK, SEP, PAD, BODY).replace('W,', WID + ',')],
         'loops': {
             0: {'uninterpreted': 'fills the literal-text table from the variable names (string processing only)',
                 'assigns': ['littext', 'split_points', 'split_point']},
             3: {'ghost_at_entry': {'T1': 'trace(outputfile)'},
-                'inv': ['trace(outputfile) == rowsfrom(7, T1, _it)']},
+                'inv': ['trace(outputfile) == rowsfrom({}, T1, _it)'.format(WID)]},
         },
         'ensures': [
             r'trace(outputfile) == ite(clen(F._clauses) == 0, '
             r'csnoc(csnoc(csnoc(old(trace(outputfile)), ev("\\begin{align}")), ev("\n   \\top")), ev("\n\\end{align}")), '
-            r'csnoc(rowsfrom(7, csnoc(old(trace(outputfile)), ev("\\begin{align}")), clen(F._clauses)), ev("\n\\end{align}")))',
+            r'csnoc(rowsfrom(WID, csnoc(old(trace(outputfile)), ev("\\begin{align}")), clen(F._clauses)), ev("\n\\end{align}")))'.replace('WID', WID),
             'F._clauses == old(F._clauses)', 'F._numvar == old(F._numvar)',
         ],
     },
+    # the whole document for a CNF: preamble, title, [header listing], the line stating the TRUE variable and clause counts, then
+    # the rows exactly as _print_latex renders them with 35 rows per block in the non-compact layout, then \end{document}.
+    # Titles, header values and the user's extra text are opaque events (content not looked into).
+    (X, 'to_latex_document'): {
+        'property': ['C12'],
+        'trace': {'comment': None, 'opaque': True},
+        'params': {'F': 'obj:CNFw', 'fileorname': 'sink', 'export_header': 'bool', 'extra_text': 'opaquestr'},
+        'requires': ['cmaxabs(F._clauses) <= F._numvar', 'not chaszero(F._clauses)'],
+        'raises': {},
+        'loops': {0: {'counter': '_ith', 'ghost_at_entry': {'T1': 'trace(output)'}, 'inv': ['trace(output) == capp(T1, opq(_ith))']}},
+        'ensures': ['trace(fileorname) == DOC', 'F._clauses == old(F._clauses)', 'F._numvar == old(F._numvar)'],
+    },
+}
+_PRE = (r'csnoc(csnoc(csnoc(csnoc(csnoc(old(trace(fileorname)), ev(PREAMBLE)), ev("\\begin{document}\n")), evopaque()), '
+        r'ev("\\author{CNFgen formula generator}\n")), ev("\\maketitle\n"))')
+_HDR = (r'ite(export_header, csnoc(csnoc(capp(csnoc(csnoc(A_, ev("\\noindent\\textbf{Formula header:}\n")), ev("\\begin{lstlisting}[breaklines]\n")), '
+        r'opq(final("_ith"))), ev("\\end{lstlisting}\n")), ev("\\bigskip\n")), A_)').replace('A_', _PRE)
+_CNT = (r'csnoc(csnoc(B_, evopaque()), ev("\\noindent\\textbf{{CNF with {} variables and and {} clauses:}}\n", F._numvar, clen(F._clauses)))').replace('B_', _HDR)
+_W35 = 'wid(35, 0)'
+_ROWS = (r'ite(clen(F._clauses) == 0, csnoc(csnoc(csnoc(C_, ev("\\begin{align}")), ev("\n   \\top")), ev("\n\\end{align}")), '
+         r'csnoc(rowsfrom(W_, csnoc(C_, ev("\\begin{align}")), clen(F._clauses)), ev("\n\\end{align}")))').replace('C_', _CNT).replace('W_', _W35)
+_DOC = r'csnoc(R_, ev("\n\\end{document}"))'.replace('R_', _ROWS)
+_PREAMBLE_TEXT = '"%\\n\\\\documentclass[10pt,a4paper]{article}\\n\\\\usepackage[margin=1in]{geometry}\\n\\\\usepackage{amsmath}\\n\\\\usepackage{listings}\\n\\\\usepackage[utf8]{inputenc}\\n"'
+_c = CONTRACTS[(X, 'to_latex_document')]
+_c['ensures'] = ['F._clauses == old(F._clauses)', 'F._numvar == old(F._numvar)']
+_HDR_ON = _HDR.replace('ite(export_header, ', '', 1)
+_HDR_ON = _HDR_ON[:_HDR_ON.rindex(', ' + _PRE + ')')]          # the header branch alone
+_c['variants'] = {
+    'header': {'params': {'export_header': 'const:True'},
+               'ensures': ['trace(fileorname) == ' + _DOC.replace(_HDR, _HDR_ON).replace('PREAMBLE', _PREAMBLE_TEXT)]},
+    'noheader': {'params': {'export_header': 'const:False'},
+                 'ensures': ['trace(fileorname) == ' + _DOC.replace(_HDR, _PRE).replace('PREAMBLE', _PREAMBLE_TEXT)]},
 }
